@@ -1,7 +1,7 @@
 (* Executable checker used by harness/c18.py: the model is run on the same history as the
    real JobRouter / handle_fe / handle_controller and the outputs are compared. *)
 From Coq Require Import List NArith ZArith String Bool.
-From EKW Require Import Gateway.Router.
+From EKW Require Import Gateway.Router Gateway.IdSource.
 Import ListNotations.
 
 Definition opt_eqb {A} (eqb : A -> A -> bool) (a b : option A) : bool :=
@@ -46,6 +46,20 @@ Definition output_eqb (a b : output) : bool :=
 Definition check_case (c : list event * list output * option string) : bool :=
   let '(evs, outs, crash) := c in
   let '(mouts, fin) := run [] evs in
+  list_eqb output_eqb mouts outs &&
+  match fin, crash with
+  | Ok _, None => true
+  | Err k, Some k' => String.eqb k k'
+  | _, _ => false
+  end.
+
+(* round 5: the history carries the DRAWS of the scripted id source (uuid values) and the
+   rendering draw -> job id observed on the implementation (a finite table); the model renders
+   inside the generator of next_uuid (IdSource.choose_rendered).  With an empty table a draw
+   is its own id: the histories of check_case. *)
+Definition check_case_r (c : list (N * jobid) * list event * list output * option string) : bool :=
+  let '(tbl, evs, outs, crash) := c in
+  let '(mouts, fin) := run_p (choose_rendered (render_of tbl)) [] evs in
   list_eqb output_eqb mouts outs &&
   match fin, crash with
   | Ok _, None => true
